@@ -161,6 +161,13 @@ def native_repeat(which):
                     bad = bad or vals[0] != vals[1]
             return (bad, {"two_runs_of_the_seeded_standard_engine": out})
         from contracts import mlmc_harness as H
+        if which == "multilevel-fixed":
+            prices = []
+            for ambient in (99, 12345):
+                np.random.seed(ambient)
+                eng, stats, counter, script = H.run(initial_level=2, maximum_level=3, initial_mc_paths=5, fixed=True, seed=11, spot_payoff=True)
+                prices.append([float(v) for ms in stats.mc_statistics for v in np.ravel(ms._payoff_statistics.stats[:, 0, 0])])
+            return (prices[0] != prices[1], {"fine_payoffs_of_two_seeded_fixed-level_runs": [prices[0][:6], prices[1][:6]]})
         calls = []
         orig = np.random.seed
         np.random.seed = lambda s=None: (calls.append(s), orig(s))[1]
@@ -363,12 +370,13 @@ class MultilevelSeedsOnce(Lemma):
     """multilevel Engine.price, single process, up to the end of the first pass (real body; the run is cut when the first
     pass's results are set): seeded exactly once, before the engine's pre-computation and before every level's draws."""
     prop = "C08"
+    cases = ("price", "price_with_constant_mc_paths_and_level")
 
     def __init__(self):
         self.name = "property:multilevel-engine-seeds-once-before-every-draw"
 
     def prove(self, vc, case):
-        nm = self.name
+        nm = self.name if case == "price" else f"{self.name}[fixed levels and sample sizes]"
         it = vc.interp
         log = []
         ev = lambda e: log.append(e)
@@ -390,8 +398,12 @@ class MultilevelSeedsOnce(Lemma):
         cp = vc.obj(CP, fine_process=fine)
         eng = vc.obj(ME + "Engine", configuration=cfg, coupling_process=cp, path_managers=[vc.obj("rpylib.montecarlo.path:MCPath")],
                      statistics=vc.obj("rpylib.montecarlo.statistic.statistic:MLMCStatistics"))
+        it.hooks["rpylib.montecarlo.statistic.statistic:MLMCStatistics.extend"] = lambda it_, f, b: None
         try:
-            vc.method(eng, "price", vc.obj("rpylib.product.product:Product", maturity=vc.real("T")), vc.real("rmse"))
+            if case == "price":
+                vc.method(eng, "price", vc.obj("rpylib.product.product:Product", maturity=vc.real("T")), vc.real("rmse"))
+            else:
+                vc.method(eng, "price_with_constant_mc_paths_and_level", vc.obj("rpylib.product.product:Product", maturity=vc.real("T")))
         except PyRaise as e:
             if e.exc_type != "StopIteration":
                 raise
@@ -401,7 +413,7 @@ class MultilevelSeedsOnce(Lemma):
         vc.check(nm + "::every-draw-comes-after-the-seeding", "seed" in kinds and all(k != "draw" for k in kinds[: kinds.index("seed")]))
 
     def replay(self, model, clause, case):
-        return native_repeat("multilevel")
+        return native_repeat("multilevel" if case == "price" else "multilevel-fixed")
 
 
 UNITS = [SeedSemantics(), StandardEngineSeedOrder(), MultilevelLevelRoutine(), MultilevelSeedsOnce(), PoolSeeding(), DrawsAreGlobal()]
@@ -421,7 +433,7 @@ class RepeatabilityBattery:
 
     def run(self, tier, seed):
         viol, ev = [], 0
-        for which in ("standard", "multilevel"):
+        for which in ("standard", "multilevel", "multilevel-fixed"):
             ev += 1
             bad, info = native_repeat(which)
             if bad:
